@@ -25,7 +25,7 @@ pub fn cases(ctx: &Ctx) -> Vec<WCase> {
 
 pub fn run_case(c: &WCase) -> Outcome {
     let o = Oracles { c03: true, ..Default::default() };
-    run_world_case(c, o, "C03", &|w, out| {
+    run_world_case(c, o, "C03", &[], &|w, out| {
         out.count("predicted_although_frame_already_received", w.obs.predicted_though_received);
         out.count("rechecks_of_frames_below_confirmed", w.obs.final_rechecks);
         let b = &w.obs;
